@@ -60,7 +60,7 @@ def rules(ctx):
         return
     for fn in flow._shapes(ctx, L + "update"):
         lock = flow.find(fn, {"k": "construct", "callee_re": r"lock_guard::lock_guard$"}) + flow.find(fn, call("lock"))
-        funcs = [e for e in flow.find(fn, {"k": "call"}) if re.match(r"^func\(", fn.expr(e))]
+        funcs = [e for e in flow.find(fn, {"k": "call"}) if fn.kids(e) and fn.nodes[fn.kids(e)[0]]["k"] == "ref" and fn.nodes[fn.kids(e)[0]].get("dk") == "param"]
         stores = flow.find(fn, {"k": "call", "field": "left_right::_lr_indicator", "op": "store"})
         toggles = flow.find(fn, call("toggle_version_and_wait"))
         ctx.check(bool(lock) and all(any(fn.before(l, f) for l in lock) for f in funcs), rid, L + "update#under-mutex", "all functor calls under the writer mutex",
@@ -124,7 +124,8 @@ def rules(ctx):
             for cur in (0, 1, 2, 3):
                 env = {"call:load": (lambda *a, cur=cur: cur)}
                 # locals: current_version = load(); evaluate the args of the waits and the store
-                e0 = {"current_version": cur}
+                e0 = {nm: cur for nm in {fn.nodes[x]["name"] for w_ in (w[0], w[1], st[0]) for x in fn.subtree(w_) if fn.nodes[x]["k"] == "ref" and fn.nodes[x].get("dk") == "local"}
+                      if (flow.unique_def(fn, nm) is not None and fn.atomic(flow.unique_def(fn, nm)))}
                 a0 = evalx(fn, fn.kids(w[0])[-1], e0)
                 a1 = evalx(fn, fn.kids(w[1])[-1], e0)
                 sv = evalx(fn, fn.kids(st[0])[1], e0)
@@ -138,4 +139,4 @@ def rules(ctx):
           mode="dom") if ctx.facts.shapes(L + "read_guard::read_guard") else None
     present(ctx, rid2, L + "read_guard::~read_guard", call("depart"), label="departs")
     present(ctx, rid2, L + "read_guard::read_guard", call("arrive"), label="arrives")
-    guarded(ctx, rid2, L + "get_read_indicator", {"k": "return", "expr_re": "_read_indicator1"}, {"k": "bin", "expr_re": r"idx == 0"}, True, label="idx0->indicator1")
+    guarded(ctx, rid2, L + "get_read_indicator", {"k": "return", "expr_re": "_read_indicator1"}, {"k": "bin", "pred": lambda fn, nid: fn.nodes[nid].get("op") == "==" and flow.has_src(fn, nid, "param#0") and any(fn.nodes[k].get("v") == 0 for k in fn.kids(nid))}, True, label="idx0->indicator1")
